@@ -149,6 +149,11 @@ class SText:
             if i.stop is None:
                 r.suffix_of = self  # provenance: x[a:] is a suffix of x by construction
             return r
+        if isinstance(i, int) and i in (0, -1) and self.kind is str:
+            if not c.branch(n >= 1, "text.len>=1"):
+                raise IndexError("string index out of range")
+            h, r = self._const_point(1 if i == 0 else -1)
+            return SText(h if i == 0 else r, str)
         ti = tint(i)
         if c.branch(ti < 0, "text.negidx"):
             ti = ti + n
@@ -179,8 +184,28 @@ class SText:
         if isinstance(v, int):
             if v == 0:
                 return (z3.StringVal(""), self.t)
+            if -4 <= v <= 4:
+                return self._const_point(v)
             return None
         return self._points().get(self._key(tint(v)))
+
+    def _const_point(self, k):
+        """split at a small constant offset from the start (k > 0) or the end (k < 0) by a word equation
+        self == h ++ r with |h| == k (resp. |r| == -k); clipped like Python slicing when the text is shorter"""
+        memo = self.__dict__.setdefault("_cpts", {})
+        if k in memo:
+            return memo[k]
+        c = ctx()
+        n = z3.Length(self.t)
+        if c.branch(n >= abs(k), f"text.len>={abs(k)}"):
+            nm = c.fresh_name("cut")
+            h, r = z3.String(nm + ".h"), z3.String(nm + ".r")
+            c.add(self.t == z3.Concat(h, r))
+            c.add(z3.Length(h) == k if k > 0 else z3.Length(r) == -k)
+            memo[k] = (h, r)
+        else:
+            memo[k] = (self.t, z3.StringVal("")) if k > 0 else (z3.StringVal(""), self.t)
+        return memo[k]
 
     def _slice_by_points(self, start, stop):
         """self[start:stop] through word equations when both bounds are known split points"""
@@ -197,7 +222,7 @@ class SText:
         c = ctx()
         m = z3.String(c.fresh_name("mid"))
         # prefix_end == prefix_start ++ m   (start <= stop at the call sites; otherwise the slice is empty)
-        if c.branch(tint(start) <= tint(stop), "slice.ordered"):
+        if c.branch(z3.Length(ps[0]) <= z3.Length(pe[0]), "slice.ordered"):
             c.add(pe[0] == z3.Concat(ps[0], m))
             return SText(m, self.kind)
         return SText(z3.StringVal(""), self.kind)
@@ -326,7 +351,39 @@ class SText:
     def rstrip(self, chars=None):
         return self._strip(chars, False, True)
 
+    def rfind(self, sub):
+        """last occurrence: a case split with word equations (x == a ++ sub ++ b, sub not in the rest)"""
+        sp = self._same(sub)
+        c = ctx()
+        if not (z3.is_string_value(sp.t) and len(RL.py_unescape(sp.t.as_string())) == 1):
+            return mk_int(z3.LastIndexOf(self.t, sp.t))
+        parts = self.rfind_parts(sub)
+        return -1 if parts is None else mk_int(z3.Length(parts[0]))
+
+    def rfind_parts(self, sub):
+        """(a, b) with self == a ++ sub ++ b and sub not in b (the cut at the right-most occurrence), or None when
+        sub does not occur; memoised, so code and spec side talk about the same cut"""
+        sp = self._same(sub)
+        c = ctx()
+        memo = self.__dict__.setdefault("_rfind", {})
+        k = sp.t.sexpr()
+        if k in memo:
+            return memo[k]
+        if not c.branch(z3.Contains(self.t, sp.t), "rfind.found"):
+            memo[k] = None
+            return None
+        nm = c.fresh_name("rfind")
+        a, b = z3.String(nm + ".a"), z3.String(nm + ".b")
+        c.add(self.t == z3.Concat(a, sp.t, b))
+        c.add(z3.Not(z3.Contains(b, sp.t)))
+        self._add_point(z3.Length(a), a, z3.Concat(sp.t, b))
+        self._add_point(z3.Length(a) + 1, z3.Concat(a, sp.t), b)
+        memo[k] = (a, b)
+        return memo[k]
+
     def split(self, sep=None, maxsplit=-1):
+        if sep is not None and maxsplit == -1:
+            return SplitParts(self, sep)
         if sep is None or maxsplit < 1 or maxsplit > 4:
             raise Unsupported("split other than split(sep, k) with 1 <= k <= 4")
         sp = self._same(sep)
@@ -337,7 +394,11 @@ class SText:
             if not c.branch(z3.Contains(cur, sp.t), "split.has_sep"):
                 break
             a, b = self._cut_first(cur, sp)
-            out.append(SText(a, self.kind))
+            part = SText(a, self.kind)
+            if cur is self.t:
+                # provenance: this part is the text before the FIRST separator of self (self == a ++ sep ++ b)
+                part.cut_head_of = (self, sep, b)
+            out.append(part)
             cur = b
         out.append(SText(cur, self.kind))
         return out
@@ -408,6 +469,43 @@ class SText:
         r = m.eval(self.t, model_completion=True)
         s = RL.py_unescape(r.as_string()) if z3.is_string_value(r) else str(r)
         return s.encode("latin-1", "replace") if self.kind is bytes else s
+
+
+class SplitParts:
+    """text.split(sep) with an unbounded number of parts: an opaque list of which only the source, the separator
+    and the direction are known (consumers such as an accumulate model reason about it by induction)"""
+
+    _pyvc_sym = True
+
+    def __init__(self, src, sep, rev=False):
+        self.src = src
+        self.sep = sep
+        self.rev = rev
+
+    def __reversed__(self):
+        return SplitParts(self.src, self.sep, not self.rev)
+
+    def concretize(self, m):
+        parts = self.src.concretize(m).split(self.sep)
+        return parts[::-1] if self.rev else parts
+
+
+def from_fmt(s, kind=str):
+    """text produced by str.format / an f-string over symbolic texts (markers) -> SText concatenation"""
+    from .values import fmt_parse
+
+    parts = []
+    for p in fmt_parse(s):
+        if isinstance(p, tuple):
+            v, spec = p
+            if spec:
+                raise Unsupported(f"format spec {spec!r} on symbolic text")
+            parts.append(SText.of(v).t if not isinstance(v, SText) else v.t)
+        else:
+            parts.append(sval(p))
+    if not parts:
+        return SText(z3.StringVal(""), kind)
+    return SText(z3.Concat(*parts) if len(parts) > 1 else parts[0], kind)
 
 
 class SNumText:
